@@ -432,6 +432,7 @@ type outcome struct {
 	refused  error  // the library refused the call (reference untouched for the refused part)
 	panicked string // a panic escaped the library
 	skipLt   bool   // the failure is explained by the extent skip test (`<` for `<=`)
+	trailNeg bool   // Write reported an error after writing every byte (empty trailing WriteAt at a negative offset)
 	trimmed  bool   // part of the operation was left out to stay clear of a known defect
 	problem  string // a direct oracle failure found while executing (short write, wrong read, …)
 	touched  []string
@@ -497,6 +498,9 @@ func (rn *runner) writeChunk(f *ext4.File, n *node, chunk []byte, out *outcome) 
 		return false
 	}
 	if werr != nil {
+		if wn == len(chunk) && strings.Contains(werr.Error(), "negative offset") && trailTrigger(f.V04Extents(), rn.bs, off, len(chunk)) {
+			out.trailNeg = true
+		}
 		out.refused = werr
 		return false
 	}
